@@ -1,6 +1,9 @@
 import CedarVerif.Lemmas.TCOps
 import CedarVerif.Lemmas.TCRemove
 import CedarVerif.Lemmas.TCUpsert
+import CedarVerif.Lemmas.TCFrom
+import CedarVerif.Lemmas.TCCycle
+import CedarVerif.Lemmas.TCAccept
 import CedarVerif.Cedar.Eval
 /-
 C04 — Hierarchy membership equals parent-reachability after any store history.
@@ -461,5 +464,149 @@ theorem in_iff_reach_history (h1 : AcceptedAcyclic EntityUID) (h2 : UpsertMultiP
     (e a : EntityUID) :
     inE (toEntities (runOps [] ops)) e a = true ↔ a = e ∨ Reach (shape (runOps [] ops)) e a :=
   in_iff_reach _ (history_inv_partial h1 h2 h3 ops hp) e a
+
+/-! ### the residuals, discharged or refuted -/
+
+/-- residual 3 discharged: whatever the contract `closure` (standing for `compute_tc`) returns on a batch
+    without indirect ancestors satisfies the invariant: saturation keeps the direct parents, adds only
+    edges justified by parent-reachability and keeps parents/indirect disjoint; the final `stable` and
+    `enforceDag` checks give closedness and acyclicity -/
+theorem from_preserves : FromPreserves α :=
+  fun es s' hpb hok => fromEntities_inv es s' hpb hok
+
+/-- residual 1 discharged (COMPLETENESS of the cycle detection): a pure from/add/upsert/remove that is
+    accepted has an acyclic parent graph. For add/upsert (ANY batch, repeated uids included): the records
+    that stay untouched are unchanged records of a store satisfying the invariant, hence complete for the
+    new parent graph and without self-edge, so every cycle runs through touched nodes only; the first
+    node on a cycle visited by the DFS of `repair_tc` gets an edge to itself (`addAnc_cspec`), which
+    `enforce_dag_from_tc_for` finds because that node is touched. -/
+theorem accepted_acyclic : AcceptedAcyclic α := by
+  intro s o s' hinv hp hok
+  apply applyOp_acyclic s o s' hinv ?_ hok
+  cases o with
+  | «from» m es => exact hp
+  | add m es => exact hp
+  | upsert m es => exact hp.1
+  | remove m us => exact hp
+
+/-- `repair_correct` at full strength under the precondition the callers establish (justified edges;
+    untouched records complete and WITHOUT SELF-EDGE — the last conjunct replaces the third hypothesis of
+    `RepairCorrectFull`, which is too weak: a cycle among complete untouched records next to an unrelated
+    touched cycle is not excluded by it): `repair_tc` succeeds with an exactly closed store iff the parent
+    graph is acyclic and reports `cycle` otherwise -/
+theorem repair_correct (s : Store α) (t : List α) (hs : Sound (shape s) s)
+    (hun : ∀ k, k ∈ keys s → k ∉ t → Complete (shape s) s k)
+    (hnoself : ∀ k n, TC.get s k = some n → k ∉ t → k ∉ n.out) :
+    ((∀ x, ¬ Reach (shape s) x x) → ∃ s', repairTc t s = .ok s' ∧ TC.Ext s s' ∧ Exact (shape s) s') ∧
+    ((∃ x, Reach (shape s) x x) → repairTc t s = .error .cycle) :=
+  ⟨repair_correct_partial s t hs hun, repairTc_complete s t hun hnoself⟩
+
+example : repairTc [0, 1, 2] [(0, ({ parents := [1], indirect := [] } : Node Nat)),
+    (1, { parents := [2], indirect := [] }), (2, { parents := [0], indirect := [] }),
+    (3, { parents := [0], indirect := [1, 2] })] = .error .cycle := by rfl
+
+/-- `AddInvFull` holds: `add_entities` (ComputeNow, any batch without indirect ancestors) on a store
+    satisfying the invariant is accepted exactly when the batch loop succeeds and the spec's parent graph
+    is acyclic; then it re-establishes the invariant with the spec's parent graph; otherwise it reports
+    the loop's `duplicate` resp. `cycle` -/
+theorem add_inv : AddInvFull α := by
+  intro s es hinv hp
+  obtain ⟨a1, a2⟩ := add_inv_partial s es hinv hp
+  constructor
+  · intro s' hok
+    have hac := accepted_acyclic s (.add .compute es) s' hinv ⟨rfl, hp⟩ hok
+    cases hl : addLoop s [] es with
+    | error e => simp [addEntities, hl] at hok
+    | ok st =>
+      obtain ⟨s1, t⟩ := st
+      have hrep : repairTc (touchPass s1 t) s1 = .ok s' := by
+        simpa [addEntities, hl, finish] using hok
+      have hsh := shape_of_pg (repairTc_pg hrep)
+      obtain ⟨s'', h', hi, hpg⟩ := addEntities_ok s es hinv hp s1 t hl (hsh ▸ hac)
+      rw [h'] at hok; cases hok; exact ⟨hi, hpg⟩
+  · intro e
+    constructor
+    · exact a2 e
+    · rintro (h | ⟨rfl, ⟨st, hst⟩, hcyc⟩)
+      · simp [addEntities, h]
+      · obtain ⟨s1, t⟩ := st
+        have l4 := (addLoop_spec es s [] s1 t hst hp).2.2.2
+        apply addEntities_cyclic s es hinv hp s1 t hst
+        apply Classical.byContradiction
+        intro hne
+        apply hcyc
+        rw [← l4]
+        exact (acyclic_pg s1).mpr (fun x hx => hne ⟨x, hx⟩)
+
+omit [DecidableEq α] in
+theorem reach_elim {P : α → Option (List α)} {x y : α} (h : Reach P x y) :
+    ∃ ps, P x = some ps ∧ (y ∈ ps ∨ ∃ z, z ∈ ps ∧ Reach P z y) := by
+  cases h with
+  | edge hp hy => exact ⟨_, hp, Or.inl hy⟩
+  | step hp hz hzy => exact ⟨_, hp, Or.inr ⟨_, hz, hzy⟩⟩
+
+/-- the witness: x=0 → w=1 → u=2, w → v=3 → y=4 -/
+def cexBase : List (Nat × Node Nat) :=
+  [(0, { parents := [1], indirect := [] }), (1, { parents := [2, 3], indirect := [] }),
+   (2, { parents := [], indirect := [] }), (3, { parents := [4], indirect := [] }),
+   (4, { parents := [], indirect := [] })]
+
+/-- one batch: u ↦ {y}, u ↦ {}, w ↦ {} -/
+def cexBatch : List (Nat × Node Nat) :=
+  [(2, { parents := [4], indirect := [] }), (2, { parents := [], indirect := [] }),
+   (1, { parents := [], indirect := [] })]
+
+theorem cex_run :
+    (TC.get (runOps [] [Op.from .compute cexBase, Op.upsert .compute cexBatch]) 0).map
+        (fun n => (n.parents, n.indirect)) = some ([1], [4]) ∧
+    (TC.get (runOps [] [Op.from .compute cexBase, Op.upsert .compute cexBatch]) 1).map
+        (fun n => (n.parents, n.indirect)) = some ([], []) := by decide +kernel
+
+/-- FINDING (genuine, reproduced on the implementation — see known_findings.jsonl
+    `C04-upsert-batch-repeated-uid-stale-ancestor`): `HistoryInvFull` is FALSE. An upsert batch that names
+    a uid twice leaves a stale indirect ancestor: after `from [x<w, w<u,v, u<, v<y, y<]` and the single call
+    `upsert [u<y, u<, w<]` the record of x still lists y although x → w and w has no parents. The second
+    overwrite of u strips u's ancestors {y} only from records that still list u (w, not x — x lost u in
+    the first strip); the overwrite of w then strips only w's current ancestors from x. -/
+theorem upsert_multi_repeated_uid_counterexample : ¬ HistoryInvFull Nat := by
+  intro h
+  have hinv := h [Op.from .compute cexBase, Op.upsert .compute cexBatch] (by
+    intro o ho
+    simp only [List.mem_cons, List.mem_nil_iff, or_false] at ho
+    rcases ho with rfl | rfl
+    · exact ⟨rfl, by intro e he; simp only [cexBase, List.mem_cons, List.mem_nil_iff, or_false] at he
+                     rcases he with rfl | rfl | rfl | rfl | rfl <;> rfl⟩
+    · exact ⟨rfl, by intro e he; simp only [cexBatch, List.mem_cons, List.mem_nil_iff, or_false] at he
+                     rcases he with rfl | rfl | rfl <;> rfl⟩)
+  obtain ⟨hrun0, hrun1⟩ := cex_run
+  generalize runOps [] [Op.from .compute cexBase, Op.upsert .compute cexBatch] = sf at hinv hrun0 hrun1
+  cases hg0 : TC.get sf 0 with
+  | none => rw [hg0] at hrun0; cases hrun0
+  | some n0 =>
+    cases hg1 : TC.get sf 1 with
+    | none => rw [hg1] at hrun1; cases hrun1
+    | some n1 =>
+      rw [hg0] at hrun0; rw [hg1] at hrun1
+      simp only [Option.map_some, Option.some.injEq, Prod.mk.injEq] at hrun0 hrun1
+      obtain ⟨hp0, hi0⟩ := hrun0
+      obtain ⟨hp1, _⟩ := hrun1
+      have h4 : (4 : Nat) ∈ n0.out := by simp [Node.out, hp0, hi0]
+      have hr := (hinv.exact 0 n0 hg0 4).mp h4
+      obtain ⟨ps, hps, hcase⟩ := reach_elim hr
+      rw [shape_some hg0, hp0] at hps
+      cases hps
+      rcases hcase with hc | ⟨z, hz, hzy⟩
+      · simp at hc
+      · simp only [List.mem_singleton] at hz
+        subst hz
+        obtain ⟨ps1, hps1, hcase1⟩ := reach_elim hzy
+        rw [shape_some hg1, hp1] at hps1
+        cases hps1
+        simp at hcase1
+
+/-- … hence residual 2 as stated (any batch of length ≠ 1) is false as well -/
+theorem upsert_multi_preserves_refuted : ¬ UpsertMultiPreserves Nat := by
+  intro h2
+  exact upsert_multi_repeated_uid_counterexample (history_inv_partial accepted_acyclic h2 from_preserves)
 
 end Cedar.C04
